@@ -68,6 +68,19 @@ func (g *c17vGen) doneOf(j int) chan struct{} {
 	return g.done[j]
 }
 
+// pending: listeners of this restore that were started and have not left yet
+func (g *c17vGen) pending() int {
+	n := 0
+	if g != nil {
+		for i := range g.begun {
+			if atomic.LoadInt32(&g.begun[i]) == 1 && atomic.LoadInt32(&g.left[i]) == 0 {
+				n++
+			}
+		}
+	}
+	return n
+}
+
 func (g *c17vGen) letGo() {
 	if g != nil {
 		g.once.Do(func() { close(g.release) })
